@@ -161,6 +161,7 @@ def shards(tier: str, seed: int):
     out.append(["samehost"])
     out.append(["bigvalues"])
     out.append(["faults"])
+    out.append(["envvars"])
     for part in range(8):
         out.append(["pairs", part])
     if tier == "thorough":
@@ -206,7 +207,67 @@ def failing_lookup(fault: str, domain, flavour: str):
         return queries, e
 
 
+ENV_PROFILES = [
+    {"USERDNSDOMAIN": "CORP.TEST", "USERDOMAIN": "CORP", "LOGONSERVER": "\\\\DC01", "COMPUTERNAME": "WS7"},
+    {"LOCALDOMAIN": "lab.example", "RES_OPTIONS": "ndots:3", "HOSTNAME": "ws7.lab.example", "DNSDOMAIN": "lab.example", "DOMAINNAME": "lab.example", "KRB5_CONFIG": "/nonexistent/krb5.conf", "DPAPI_NG_DOMAIN": "evil.example", "DOMAIN": "evil.example"},
+]
+
+
+def env_child(seed: int) -> None:
+    """runs in a child interpreter whose ENVIRONMENT carries domain-ish variables set before the library is imported"""
+    import json as _json
+
+    from mc.runner import Acc, apply_ambient
+
+    apply_ambient(False)
+    seams.block_network()
+    import socket as _socket
+
+    _socket.getfqdn = lambda *a: "build7.compute.internal"  # type: ignore[assignment]
+    _socket.gethostname = lambda: "build7"  # type: ignore[assignment]
+    acc = Acc()
+    n = 0
+    for pw in [((0, 0),), ((0, 1), (1, 2)), ((1, 0), (0, 2), (0, 1))]:
+        for dom in DOMAINS:
+            for variant in (0, 1):
+                judge(acc, pw, dom, variant)
+                n += 1
+    out = [[k, e["case"], e["detail"]] for k, lst in acc.violations.items() for e in lst[:3]]
+    print("CHILDRESULT " + _json.dumps({"evaluations": n, "violations": out, "count": acc.violation_count}, default=str))
+
+
+def run_env_child(seed: int, profile: dict):
+    import json as _json
+    import os
+    import subprocess
+    import sys
+
+    from mc.runner import TARGET, VERIF
+
+    env = dict(os.environ, PYTHONHASHSEED="0", PYTHONDONTWRITEBYTECODE="1", **profile)
+    code = f"import sys; sys.path[:0] = [{TARGET!r}, {VERIF!r}]; from checks import c20; c20.env_child({seed})"
+    r = subprocess.run([sys.executable, "-c", code], env=env, capture_output=True, text=True, timeout=600)
+    line = next((ln for ln in r.stdout.splitlines() if ln.startswith("CHILDRESULT ")), None)
+    if line is None:
+        raise RuntimeError(f"env child failed: {r.stderr[-400:]}")
+    return _json.loads(line[len("CHILDRESULT "):])
+
+
 def run_shard(shard, tier, seed, acc) -> None:
+    if shard[0] == "envvars":
+        # environment variables are part of the environment: the lookup asks the name the ARGUMENTS determine, whatever the process
+        # environment says about domains, logon servers or resolver defaults
+        n = 0
+        for i_, prof in enumerate(ENV_PROFILES):
+            res = run_env_child(seed, prof)
+            n += res["evaluations"]
+            for key, case, det in res["violations"]:
+                acc.violate("env." + key, ["envvars", i_, case], det)
+            acc.outcome(f"envvars:{i_}:" + ("viol" if res["count"] else "ok"))
+        acc.ev(n)
+        acc.nt_counted(n)
+        acc.sample({"environment profiles": ENV_PROFILES})
+        return
     seams.block_network()
     import socket as _socket
 
@@ -342,6 +403,11 @@ def run_shard(shard, tier, seed, acc) -> None:
 def replay(case, seed, acc) -> None:
     seams.block_network()
     acc.ev()
+    if case[0] == "envvars":
+        for key, c_, det in run_env_child(seed, ENV_PROFILES[case[1]])["violations"]:
+            if c_ == case[2]:
+                acc.violate("env." + key, case, det)
+        return
     if case[0] in ("fault", "after-fault"):
         run_shard(["faults"], "quick", seed, acc)
         return
